@@ -1,5 +1,34 @@
-(* C09 — placeholder until Proofs/WsProofs.v lands *)
-From GV Require Import Prelude.Base Model.Ws Model.WsCheck.
-Theorem C09_init_reopen : fst (step init Reopen) = init.
-Proof. vm_compute. reflexivity. Qed.
-Print Assumptions C09_init_reopen.
+(* C09 — An operation on one entity leaves unrelated stored entities untouched.
+   Only statements, each closed by [exact] and followed by Print Assumptions.
+   [footprint w o] (Model/WsSpec.v) lists the identifiers of the flat nodes operation [o] may rewrite in state [w];
+   every other stored node -- attributes, array token, address and child links -- is bit-for-bit the same afterwards. *)
+From GV Require Import Prelude.Base Model.Ws Model.WsSpec Proofs.WsProofs.
+
+(* unconditional: ANY state w (also states with stale or orphan nodes), all nine operations, whatever the outcome *)
+Theorem C09_step_frame : forall w o x,
+  ~ In x (footprint w o) ->
+  fget x (flat (wfile (fst (step w o)))) = fget x (flat (wfile w)).
+Proof. exact step_frame. Qed.
+Print Assumptions C09_step_frame.
+
+(* the Root link is never rewritten *)
+Theorem C09_step_rootlink : forall w o, rootlink (wfile (fst (step w o))) = rootlink (wfile w).
+Proof. exact step_rootlink. Qed.
+Print Assumptions C09_step_rootlink.
+
+(* sharper footprint when the file represents the tree: a move rewrites only the child lists of the two parents, and
+   close + open without mutation rewrites nothing (it only deletes the flat nodes of dead groups it sweeps) *)
+Theorem C09_step_frame_rep : forall w o x,
+  Rep (wmem w) (wfile w) (wpend w) ->
+  ~ In x (footprint_rep w o) ->
+  fget x (flat (wfile (fst (step w o)))) = fget x (flat (wfile w)).
+Proof. exact step_frame_rep. Qed.
+Print Assumptions C09_step_frame_rep.
+
+(* same, when the file represents the tree up to any set P of lingering orphans that contains the pending ones *)
+Theorem C09_step_frame_rep_orphans : forall w o x P,
+  Rep (wmem w) (wfile w) P -> (forall k, In k (wpend w) -> In k P) ->
+  ~ In x (footprint_rep w o) ->
+  fget x (flat (wfile (fst (step w o)))) = fget x (flat (wfile w)).
+Proof. exact step_frame_rep_gen. Qed.
+Print Assumptions C09_step_frame_rep_orphans.
